@@ -576,6 +576,25 @@ func (g *progGen) forStmt(depth int) []*tw.Stmt {
 		g.Feat["for-clause-fault"]++
 	}
 	stepInBody := st.PostName == "" && st.Post.Kind != tw.EBin && op != "!=" && rapid.IntRange(0, 7).Draw(g.rt, "stepInBody") == 0
+	// the post clause is an assignment that must be refused: it re-types the loop variable or
+	// another visible name, or names "loop" (the body steps the variable, so the loop ends anyway)
+	var refusedPost *tw.Stmt
+	if stepInBody && rapid.Bool().Draw(g.rt, "refusedPost") {
+		target, val := name, tw.Str("s")
+		switch rapid.IntRange(0, 2).Draw(g.rt, "refusedPostKind") {
+		case 1:
+			target, val = "loop", intLit(1)
+		case 2:
+			for _, k := range []refint.Kind{refint.KStr, refint.KBool, refint.KFloat} {
+				if vs := g.eg.vars(k); len(vs) > 0 {
+					target, val = rapid.SampledFrom(vs).Draw(g.rt, "refusedTarget"), tw.Var(name)
+					break
+				}
+			}
+		}
+		refusedPost = &tw.Stmt{PostName: target, Post: val}
+		g.Feat["for-refused-post"]++
+	}
 	g.push()
 	g.bind(name, refint.KInt)
 	g.loopDepth++
@@ -591,6 +610,9 @@ func (g *progGen) forStmt(depth int) []*tw.Stmt {
 			bop = "-"
 		}
 		st.Post = nil
+		if refusedPost != nil {
+			st.PostName, st.Post = refusedPost.PostName, refusedPost.Post
+		}
 		st.Body = append([]*tw.Stmt{tw.Assign(name, tw.Bin(bop, tw.Var(name), intLit(1)))}, st.Body...)
 		g.Feat["for-step-in-body"]++
 	}
